@@ -5,6 +5,7 @@ mod job;
 mod pool;
 mod props;
 mod refenc;
+mod sanit;
 mod selfcheck;
 mod stats;
 mod symbol;
@@ -23,6 +24,17 @@ fn seed() -> u64 {
 fn run_prop(id: &str, ctx: &Ctx) -> Option<fw::Report> {
     Some(match id {
         "C01" => props::c01::run(ctx),
+        "C02" => props::c02::run(ctx),
+        "C03" => props::c03::run(ctx),
+        "C04" => props::c04::run(ctx),
+        "C05" => props::c05::run(ctx),
+        "C06" => props::c06::run(ctx),
+        "C08" => props::c08::run(ctx),
+        "C09" => props::c09::run(ctx),
+        "C10" => props::c10::run(ctx),
+        "C07" => props::c07::run(ctx),
+        "C11" => props::c11::run(ctx),
+        "C15" => props::c15::run(ctx),
         _ => return None,
     })
 }
@@ -30,6 +42,17 @@ fn run_prop(id: &str, ctx: &Ctx) -> Option<fw::Report> {
 fn replay_prop(id: &str, ctx: &Ctx, job: &serde_json::Value) -> Option<stats::Stats> {
     match id {
         "C01" => props::c01::replay(ctx, job),
+        "C02" => props::c02::replay(ctx, job),
+        "C03" => props::c03::replay(ctx, job),
+        "C04" => props::c04::replay(ctx, job),
+        "C06" => props::c06::replay(ctx, job),
+        "C08" => props::c08::replay(ctx, job),
+        "C05" => props::c05::replay(ctx, job),
+        "C09" => props::c09::replay(ctx, job),
+        "C10" => props::c10::replay(ctx, job),
+        "C07" => props::c07::replay(ctx, job),
+        "C11" => props::c11::replay(ctx, job),
+        "C15" => props::c15::replay(ctx, job),
         _ => None,
     }
 }
@@ -105,6 +128,9 @@ fn main() {
             };
             let code = fw::finish(&ctx, &id, rep, &sc);
             std::process::exit(code);
+        }
+        "c10-child" => {
+            std::process::exit(props::c10::child_main(args.get(2).map(|s| s.as_str()).unwrap_or("")));
         }
         "replay" => {
             if args.len() < 3 {
